@@ -54,7 +54,9 @@ def analyze_create(st):
             A.new[hr] = fresh
     # effective ignore patterns
     prev_root = A.pre.get(A.cmd_root)
-    A.prev_patterns_root = list(prev_root["gens"][-1][2]["patterns"]) if prev_root and prev_root["gens"] else None
+    # patterns accumulate (C12): the patterns in force are those of ALL earlier generations of the history, which in a
+    # history written correctly is the list of its latest generation
+    A.prev_patterns_root = dedup([p for g in prev_root["gens"] for p in g[2]["patterns"]]) if prev_root and prev_root["gens"] else None
     cli = cli_values(argv, "-i", "--ignore")
     filep = []
     for f in cli_values(argv, "-ii", "--ignore_spec"):
